@@ -1,11 +1,17 @@
 (* Frame facts about instruction execution: an instruction never touches the interrupt request queue, the
    control-socket flag or the build mode; used by C10 (requests are neither lost nor invented by instructions). *)
 From Coq Require Import Bool ZArith Lia List.
-From K Require Import Lib.Types Model.Machine Model.Bus Model.Cost Model.Addressing Model.Alu Model.Exec.
+From K Require Import Lib.Types Model.Machine Model.Bus Model.Cost Model.Addressing Model.Alu Model.Exec Model.Periph Model.Run.
 Import ListNotations.
 Open Scope bool_scope. Open Scope Z_scope.
 
-Definition keeps {A} (m : M A) : Prop := forall s a s', m s = Ok a s' -> irq s' = irq s.
+(* the part of the state instructions never touch: pending requests, cumulative state count, exit address,
+   socket flag, build mode *)
+Lemma sync_count_app l1 l2 : sync_count (l1 ++ l2) = sync_count l1 + sync_count l2.
+Proof. induction l1 as [|m t IH]; cbn [app sync_count]; [reflexivity|]. destruct m; rewrite IH; lia. Qed.
+
+Definition untouched (s : cpu) := (irq s, ssum s, exit_addr s, sock s, ovf s, b_sum (cbus s), sync_count (b_msgs (cbus s))).
+Definition keeps {A} (m : M A) : Prop := forall s a s', m s = Ok a s' -> untouched s' = untouched s.
 
 Lemma keeps_ret {A} (a : A) : keeps (ret a).
 Proof. intros s x s' H. inversion H. reflexivity. Qed.
@@ -18,13 +24,27 @@ Proof.
 Qed.
 Lemma keeps_lift {A} (o : option A) : keeps (lift o).
 Proof. intros s a s' H. unfold lift in H. destruct o; inversion H. reflexivity. Qed.
-Lemma keeps_modify (f : cpu -> cpu) : (forall s, irq (f s) = irq s) -> keeps (modify f).
+Lemma keeps_modify (f : cpu -> cpu) : (forall s, untouched (f s) = untouched s) -> keeps (modify f).
 Proof. intros Hf s a s' H. inversion H. apply Hf. Qed.
 
 Lemma keeps_bread a : keeps (bread a).
 Proof. intros s x s' H. unfold bread in H. destruct (bus_read (cbus s) a); inversion H. reflexivity. Qed.
+Lemma bus_write_sum_m b a v :
+  match bus_write b a v with Some b' => b_sum b' = b_sum b /\ sync_count (b_msgs b') = sync_count (b_msgs b) | None => True end.
+Proof.
+  unfold bus_write.
+  repeat match goal with |- context [if ?c then _ else _] => destruct c end; try exact I; try (split; reflexivity);
+    try (unfold write_registers; match goal with |- context [if ?c then _ else _] => destruct c end; split; reflexivity);
+    unfold on_write_ddr, on_write_dr, send_io_port_value; cbn [b_sum b_msgs bset_msgs]; rewrite sync_count_app; cbn [sync_count];
+    (split; [reflexivity|unfold write_dr; cbn [b_msgs bset_io2 bset_io1 bset_latch]; lia]).
+Qed.
+Lemma bus_write_sum b a v b' : bus_write b a v = Some b' -> b_sum b' = b_sum b /\ sync_count (b_msgs b') = sync_count (b_msgs b).
+Proof. intros H. pose proof (bus_write_sum_m b a v) as M. rewrite H in M. exact M. Qed.
 Lemma keeps_bwrite a v : keeps (bwrite a v).
-Proof. intros s x s' H. unfold bwrite in H. destruct (bus_write (cbus s) a v); inversion H. reflexivity. Qed.
+Proof.
+  intros s x s' H. unfold bwrite in H. destruct (bus_write (cbus s) a v) as [b|] eqn:E; inversion H.
+  unfold untouched. cbn [irq ssum exit_addr sock ovf cbus set_bus]. destruct (bus_write_sum _ _ _ _ E) as [-> ->]. reflexivity.
+Qed.
 Lemma keeps_read_rn_b r : keeps (read_rn_b r).
 Proof. intros s x s' H. unfold read_rn_b in H. repeat match type of H with context [if ?c then _ else _] => destruct c end; inversion H; reflexivity. Qed.
 Lemma keeps_read_rn_w r : keeps (read_rn_w r).
@@ -40,8 +60,8 @@ Proof. intros s x s' H. unfold write_rn_l in H. repeat match type of H with cont
 Lemma keeps_fetch : keeps fetch.
 Proof.
   intros s x s' H. unfold fetch in H.
-  destruct (bus_read (cbus s) (Z.land (pc s) 4294967294)); [|discriminate].
-  destruct (bus_read (cbus s) (Z.land (pc s) 4294967294 + 1)); inversion H. reflexivity.
+  destruct (bus_read (cbus s) (Z.land (pc s) 4294967294)); [|inversion H; reflexivity].
+  destruct (bus_read (cbus s) (wrap 32 (Z.land (pc s) 4294967294 + 1))); inversion H; reflexivity.
 Qed.
 Lemma keeps_cs k n : keeps (cs k n).
 Proof. intros s x s' H. unfold cs, lift in H. destruct (calc_state _ _ _ _); inversion H. reflexivity. Qed.
@@ -57,8 +77,12 @@ Lemma keeps_put_pc v : keeps (put_pc v).
 Proof. apply keeps_modify. reflexivity. Qed.
 Lemma keeps_guard b : keeps (guard b).
 Proof. destruct b; [apply keeps_ret|apply keeps_fail]. Qed.
-Lemma keeps_send m : keeps (send_cpu_message m).
-Proof. intros s x s' H. unfold send_cpu_message in H. destruct (sock s); inversion H; reflexivity. Qed.
+Lemma keeps_send bs : keeps (send_cpu_message (MsgStdout bs)).
+Proof.
+  intros s x s' H. unfold send_cpu_message in H. destruct (sock s) eqn:E; inversion H; [|reflexivity].
+  unfold untouched. cbn [irq ssum exit_addr sock ovf cbus set_bus b_sum b_msgs bset_msgs]. rewrite E, sync_count_app.
+  cbn [sync_count]. rewrite Z.add_0_r. reflexivity.
+Qed.
 
 Ltac keeps_step :=
   match goal with
@@ -82,7 +106,7 @@ Ltac keeps_step :=
   | |- keeps (put_ccr _) => apply keeps_put_ccr
   | |- keeps (put_pc _) => apply keeps_put_pc
   | |- keeps (guard _) => apply keeps_guard
-  | |- keeps (send_cpu_message _) => apply keeps_send
+  | |- keeps (send_cpu_message (MsgStdout _)) => apply keeps_send
   | |- keeps (modify _) => apply keeps_modify; reflexivity
   | |- keeps (if ?c then _ else _) => destruct c
   | |- keeps (match ?x with _ => _ end) => destruct x
@@ -143,8 +167,14 @@ Proof.
     (apply keeps_bind; [apply keeps_fetch|intros; apply keeps_run_tag]).
 Qed.
 
-Theorem step_keeps_requests : forall s n s', step s = Ok n s' -> irq s' = irq s.
+Theorem step_untouched : forall s n s', step s = Ok n s' -> untouched s' = untouched s.
 Proof.
-  intros s n s' H. assert (K : keeps step) by (unfold step; apply keeps_bind; [apply keeps_fetch|intros; apply keeps_exec]).
-  exact (K s n s' H).
+  intros s n s' H. unfold step in H.
+  destruct (fetch s) as [op s1| |] eqn:Ef; try discriminate.
+  destruct (exec op s1) as [m s2| |] eqn:Ee; try discriminate.
+  destruct (fault s2); [discriminate|]. inversion H; subst.
+  rewrite (keeps_exec op _ _ _ Ee). exact (keeps_fetch _ _ _ Ef).
 Qed.
+
+Theorem step_keeps_requests : forall s n s', step s = Ok n s' -> irq s' = irq s.
+Proof. intros s n s' H. pose proof (step_untouched s n s' H) as U. unfold untouched in U. congruence. Qed.
